@@ -383,16 +383,17 @@ Section TheoremA.
   (* ---------- conjunctions ---------- *)
   Lemma sat_and_v x y : sat (MAndV x y) = cross (sat x) (sat y).
   Proof. unfold all_sat. cbn [sd]. destruct (sd ke A x), (sd ke A y). reflexivity. Qed.
-  Lemma dsat_and_v x y : dsat (MAndV x y) = [].
-  Proof. unfold all_dsat. cbn [sd]. destruct (sd ke A x), (sd ke A y). reflexivity. Qed.
+  Lemma dsat_and_v x y : dsat (MAndV x y) = cross (sat x) (dsat y).
+  Proof. unfold all_sat, all_dsat. cbn [sd]. destruct (sd ke A x), (sd ke A y). reflexivity. Qed.
 
   Lemma A_andv_B x y u : goodV x -> goodB y u -> goodB (MAndV x y) u.
   Proof.
-    intros Hx [Hs _]. split; intros w rest al Hin.
+    intros Hx [Hs Hd]. split; intros w rest al Hin.
     - rewrite sat_and_v in Hin. apply in_cross in Hin. destruct Hin as [a [b [Ha [Hb ->]]]].
       destruct (Hs b rest al Hb) as [v [Hr Hv]]. exists v. split; [|exact Hv].
       cbn [enc]. rewrite exec_app, <- app_assoc, (Hx a (b ++ rest) al Ha). exact Hr.
-    - rewrite dsat_and_v in Hin. contradiction.
+    - rewrite dsat_and_v in Hin. apply in_cross in Hin. destruct Hin as [a [b [Ha [Hb ->]]]].
+      cbn [enc]. rewrite exec_app, <- app_assoc, (Hx a (b ++ rest) al Ha). apply Hd, Hb.
   Qed.
   Lemma A_andv_V x y : goodV x -> goodV y -> goodV (MAndV x y).
   Proof.
@@ -402,11 +403,13 @@ Section TheoremA.
   Qed.
   Lemma A_andv_K x y : goodV x -> goodK y -> goodK (MAndV x y).
   Proof.
-    intros Hx [Hs _]. split; intros w rest al Hin.
+    intros Hx [Hs Hd]. split; intros w rest al Hin.
     - rewrite sat_and_v in Hin. apply in_cross in Hin. destruct Hin as [a [b [Ha [Hb ->]]]].
       destruct (Hs b rest al Hb) as [kbs [sg [Hr Hrest]]]. exists kbs, sg. split; [|exact Hrest].
       cbn [enc]. rewrite exec_app, <- app_assoc, (Hx a (b ++ rest) al Ha). exact Hr.
-    - rewrite dsat_and_v in Hin. contradiction.
+    - rewrite dsat_and_v in Hin. apply in_cross in Hin. destruct Hin as [a [b [Ha [Hb ->]]]].
+      destruct (Hd b rest al Hb) as [kbs [Hr Hk]]. exists kbs. split; [|exact Hk].
+      cbn [enc]. rewrite exec_app, <- app_assoc, (Hx a (b ++ rest) al Ha). exact Hr.
   Qed.
 
   Lemma sd_and_b x y : sd ke A (MAndB x y) = (cross (sat x) (sat y), cross (dsat x) (dsat y)).
@@ -929,10 +932,10 @@ Section TheoremA.
       apply wshape_and; auto.
   Qed.
   Lemma lshape_and_sat ix iy Sx Dx Sy Dy :
-    lshape ix Sx Dx -> lshape iy Sy Dy -> lshape (and_input ix iy) (cross Sx Sy) [].
+    lshape ix Sx Dx -> lshape iy Sy Dy -> lshape (and_input ix iy) (cross Sx Sy) (cross Sx Dy).
   Proof.
-    intros [H1 H2] [H3 H4]. split; intros w Hin; [|contradiction]. apply in_cross in Hin.
-    destruct Hin as [a [b [Ha [Hb ->]]]]; apply wshape_and; auto.
+    intros [H1 H2] [H3 H4]. split; intros w Hin; apply in_cross in Hin;
+    destruct Hin as [a [b [Ha [Hb ->]]]]; apply wshape_and; auto using wshape_weaken.
   Qed.
 
   (* length-only claims (z / o): the flags do not matter *)
